@@ -14,17 +14,47 @@ from tools.translate import Untranslatable, _tree, find_def
 MIRRORED = list(_SCHED) + [('pl/worker/cluster.py', 'execute'), ('pl/farm.py', 'Hand._translate')]
 
 
-def _suc(stmts, where):
-    """the `suc=` constant of the last `m = ...make(...)` assignment among stmts"""
+def _const(node, where):
+    if not isinstance(node, ast.Constant) or node.value not in (True, False, None):
+        raise Untranslatable(f'cluster.execute: suc= of the {where} is not True/False/None')
+    return {True: '.success', False: '.failure', None: '.invalid'}[node.value]
+
+
+def _suc(stmts, where, module=None):
+    """the `suc=` constant of the last `m = ...make(...)` assignment among stmts; the message may also be built by
+    a module-level helper that returns `...make(..., suc=<parameter>, ...)`"""
     for st in reversed(stmts):
-        if (isinstance(st, ast.Assign) and len(st.targets) == 1 and getattr(st.targets[0], 'id', '') == 'm'
-                and isinstance(st.value, ast.Call) and ast.unparse(st.value.func).endswith('message.make')):
-            for kw in st.value.keywords:
+        if not (isinstance(st, ast.Assign) and len(st.targets) == 1 and getattr(st.targets[0], 'id', '') == 'm'
+                and isinstance(st.value, ast.Call)):
+            continue
+        call = st.value
+        if ast.unparse(call.func).endswith('message.make'):
+            for kw in call.keywords:
                 if kw.arg == 'suc':
-                    if not isinstance(kw.value, ast.Constant) or kw.value.value not in (True, False, None):
-                        raise Untranslatable(f'cluster.execute: suc= of the {where} is not True/False/None')
-                    return {True: '.success', False: '.failure', None: '.invalid'}[kw.value.value]
+                    return _const(kw.value, where)
             raise Untranslatable(f'cluster.execute: the answer of the {where} has no suc=')
+        if isinstance(call.func, ast.Name) and module is not None:
+            helper = [d for d in module.body if isinstance(d, ast.FunctionDef) and d.name == call.func.id]
+            rets = [r for d in helper for r in ast.walk(d) if isinstance(r, ast.Return)]
+            if (len(helper) == 1 and len(rets) == 1 and isinstance(rets[0].value, ast.Call)
+                    and ast.unparse(rets[0].value.func).endswith('message.make') and rets[0] is helper[0].body[-1]
+                    and all(isinstance(x, ast.Expr) and isinstance(x.value, ast.Constant) for x in helper[0].body[:-1])):
+                h = helper[0]
+                if h.args.vararg or h.args.kwarg or h.args.kwonlyargs or h.args.posonlyargs:
+                    raise Untranslatable(f'cluster.execute: helper {h.name} has a signature outside the subset')
+                params = [a.arg for a in h.args.args]
+                bound = dict(zip(params, call.args))
+                bound.update({kw.arg: kw.value for kw in call.keywords})
+                defaults = dict(zip(params[len(params) - len(h.args.defaults):], h.args.defaults))
+                for kw in rets[0].value.keywords:
+                    if kw.arg == 'suc':
+                        v = kw.value
+                        if isinstance(v, ast.Name) and v.id in params:
+                            v = bound.get(v.id, defaults.get(v.id))
+                            if v is None:
+                                raise Untranslatable(f'cluster.execute: {h.name} called without its success argument')
+                        return _const(v, where)
+                raise Untranslatable(f'cluster.execute: the answer built by {h.name} has no suc=')
     return None
 
 
@@ -48,17 +78,18 @@ def _classes(node):
 
 
 def gen_worker(repo):
-    fn = find_def(_tree(repo, 'pl/worker/cluster.py'), 'execute')
+    module = _tree(repo, 'pl/worker/cluster.py')
+    fn = find_def(module, 'execute')
     tries = [n for n in ast.walk(fn) if isinstance(n, ast.Try)]
     if len(tries) != 1:
         raise Untranslatable(f'cluster.execute: {len(tries)} try statements (expected one)')
     tr = tries[0]
-    body = _suc(tr.body, 'try body')
+    body = _suc(tr.body, 'try body', module)
     if body is None:
         raise Untranslatable('cluster.execute: the try body does not build an answer')
     hs = []
     for h in tr.handlers:
-        s = _suc(h.body, 'handler')
+        s = _suc(h.body, 'handler', module)
         if s is None:
             raise Untranslatable('cluster.execute: a handler does not build an answer')
         hs.append(f'({_classes(h.type)}, {s})')
